@@ -282,6 +282,12 @@ MUTANTS = [
         "merged qualifiers alias the caller's parent-qualifier sets for keys the interval lacks: later additions (own identifiers) land in the caller's dict",
     ),
     (
+        "c08_cds_to_dict_frames_from_chunk_view", "C08", G + "gene/cds.py",
+        "            cds_frames = [f.name for f in self.frames]\n        else:",
+        "            cds_frames = [f.name for f in (self.chunk_relative_frames if len(self.chunk_relative_frames) == len(self.frames) else self.frames)]\n        else:",
+        "stand-alone CDSInterval.to_dict exports the chunk-relative frames when the block count matches (differs when the chunk cuts a block)",
+    ),
+    (
         "c10_liftover_memo_keyed_by_id", "C10", G + "location/location.py",
         "        try:\n            self.first_ancestor_of_type(sequence_type)\n        except NoSuchAncestorException:\n            raise NoSuchAncestorException(\"Location has no ancestor of type {}\".format(sequence_type))\n        if self.parent_type == sequence_type:\n            return self\n        lifted_to_grandparent = self.parent.lift_child_location_to_parent()\n        return lifted_to_grandparent.lift_over_to_first_ancestor_of_type(sequence_type)\n",
         "        key = (id(self), str(sequence_type))\n        if key in _LIFT_MEMO:\n            return _LIFT_MEMO[key]\n        try:\n            self.first_ancestor_of_type(sequence_type)\n        except NoSuchAncestorException:\n            raise NoSuchAncestorException(\"Location has no ancestor of type {}\".format(sequence_type))\n        if self.parent_type == sequence_type:\n            return self\n        lifted_to_grandparent = self.parent.lift_child_location_to_parent()\n        res = lifted_to_grandparent.lift_over_to_first_ancestor_of_type(sequence_type)\n        if len(_LIFT_MEMO) < 4096:\n            _LIFT_MEMO[key] = res\n        return res\n",
